@@ -67,6 +67,8 @@ def check(route, src, cp):
             cp.coords[...] = 99.0
         if hasattr(cp, "atomic_charges"):
             cp.atomic_charges[...] = 9.0
+        if isinstance(cp, ml.ConformerEnsemble):
+            cp.weights = np.full(cp.n_conformers, 7.0)      # the library's own in-place setter
     except BaseException as e:
         bad.append(f"{route}: mutating the copy raised {type(e).__name__}")
     after = view(src)
@@ -96,7 +98,28 @@ for route, f in (("ConformerEnsemble(x)", lambda x: ml.ConformerEnsemble(x)), ("
         bad.append(f"{route} raised {type(ex).__name__}: {ex}")
 a, b = sample(), sample()
 check("concatenate (first source)", a, ml.Molecule(ml.Structure.concatenate(a, b)) if False else a.__class__(a))
-c = ml.Structure.concatenate(ml.Structure(a), ml.Structure(b))
+sa, sb = ml.Structure(a), ml.Structure(b)
+va, vb = view(sa), view(sb)
+c = ml.Structure.concatenate(sa, sb)
+for nm, s_, v_ in (("first", sa, va), ("second", sb, vb)):
+    try:
+        if any(x.parent is not s_ for x in s_.atoms) or [x.idx for x in s_.atoms] != list(range(s_.n_atoms)) or any(x.parent is not s_ for x in s_.bonds):
+            bad.append(f"concatenate: atoms/bonds of the {nm} source no longer belong to it (parent/idx changed)")
+    except BaseException as ex:
+        bad.append(f"concatenate: parent/idx on the {nm} source raised {type(ex).__name__} afterwards")
+    if view(s_) != v_:
+        bad.append(f"concatenate changed the {nm} source")
+j1, j2 = ml.Molecule(sample()), ml.Molecule(sample())
+j1.atoms[2].atype = ml.AtomType.AttachmentPoint
+j2.atoms[0].atype = ml.AtomType.AttachmentPoint
+vj1, vj2 = view(j1), view(j2)
+try:
+    jj = ml.Molecule.join(j1, j2, j1.atoms[2], j2.atoms[0], optimize_rotation=False)
+    for nm, s_, v_ in (("first", j1, vj1), ("second", j2, vj2)):
+        if view(s_) != v_ or any(x.parent is not s_ for x in s_.atoms) or [x.idx for x in s_.atoms] != list(range(s_.n_atoms)):
+            bad.append(f"join changed its {nm} source (fields, parents or indices)")
+except BaseException as ex:
+    bad.append(f"join / source check raised {type(ex).__name__}: {ex}")
 c.atoms[0].attrib["mut"] = 1
 if "mut" in a.atoms[0].attrib:
     bad.append("concatenate: the product's atoms share their attrib dict with the source atoms")
